@@ -1,7 +1,7 @@
 use core::panic;
-use std::vec;
+use std::{io::Write, vec};
 
-use laythe_core::{object::Class, utils::IdEmitter, value::Value, ObjRef};
+use laythe_core::{managed::Trace, object::Class, utils::IdEmitter, value::Value, ObjRef};
 
 /// The cache for property access and setting
 #[derive(Clone, Debug)]
@@ -37,6 +37,33 @@ pub struct InlineCache {
   /// one for each location a method is
   /// invoke
   invoke: Vec<Option<InvokeCache>>,
+}
+
+impl Trace for InlineCache {
+  /// The entries name their class by address. They have to keep what
+  /// they name alive, a collected class whose address is handed to a new
+  /// class would otherwise hit the entry of the old one
+  fn trace(&self) {
+    for cache in self.property.iter().flatten() {
+      cache.class.trace();
+    }
+
+    for cache in self.invoke.iter().flatten() {
+      cache.class.trace();
+      cache.method.trace();
+    }
+  }
+
+  fn trace_debug(&self, log: &mut dyn Write) {
+    for cache in self.property.iter().flatten() {
+      cache.class.trace_debug(log);
+    }
+
+    for cache in self.invoke.iter().flatten() {
+      cache.class.trace_debug(log);
+      cache.method.trace_debug(log);
+    }
+  }
 }
 
 impl InlineCache {
